@@ -59,6 +59,45 @@ C17_Sound ==
            (T.obs.panic = "" /\ T.nerr = 0 /\ T.typed) => T.run \notin StaticClasses)
   /\ Check("C17", "nothing reported at all, yet execution fails because of the shape of a send-all source",
            (T.obs.panic = "" /\ T.ndiag = 0 /\ T.typed /\ ~T.worldvar) => T.run \notin ShapeClasses)
+\* ---- C19 (histories): every reply of the long-lived server equals the fresh server's on the latest text
+C19_Histories == T.e = "lsp" =>
+  \A i \in 1..Len(T.steps) :
+     /\ (T.steps[i].panic = "" /\ T.steps[i].freshpanic = "") \/ Report("C19", "the language server panicked", i)
+     /\ (T.steps[i].panic # "" \/ T.steps[i].freshpanic # "" \/ T.steps[i].same
+           \/ Report("C19", "a reply or published diagnostic set differs from a fresh analysis of the latest text of that document (stale version or another document)", i))
+
+\* ---- C19 (navigation): hover / definition at every position against the token table of the printing machine
+\* expnodes[i] = <<kind, sl, sc, el, ec, name>>; probes[j] = <<ln, ch, hkind, hname, htype, hsl, hsc, hel, hec, dsl, dsc, del, dec>>
+NN == T.expnodes
+InTok(nd, ln, ch) == nd[2] = ln /\ nd[4] = ln /\ nd[3] <= ch /\ ch < nd[5]
+AtTokEnd(nd, ln, ch) == nd[4] = ln /\ ch = nd[5]
+Targets == {i \in 1..Len(NN) : NN[i][1] \in {"Variable", "FnCallIdentifier"}}
+DeclOf(i) == LET ds == {j \in 1..(i - 1) : NN[j][1] = "DeclName" /\ NN[j][6] = NN[i][6]} IN
+             IF ds = {} THEN 0 ELSE CHOOSE j \in ds : \A k \in ds : j <= k
+LeqPos(a, b, c, d) == a < c \/ (a = c /\ b <= d)
+\* the call is the origin of a declaration iff its range lies within a VarDeclaration's
+OriginCtx(i) == \E j \in 1..(i - 1) : NN[j][1] = "VarDeclaration" /\ LeqPos(NN[j][2], NN[j][3], NN[i][2], NN[i][3]) /\ LeqPos(NN[i][4], NN[i][5], NN[j][4], NN[j][5])
+FnKnown(i) == IF OriginCtx(i) THEN NN[i][6] \in {"meta", "balance", "overdraft"} ELSE NN[i][6] \in {"set_tx_meta", "set_account_meta"}
+NoHover(pr) == pr[3] = "" /\ pr[6] = -1
+NoDef(pr) == pr[10] = -1
+ProbeOk(pr) ==
+  LET ln == pr[1]  ch == pr[2]
+      hit == {i \in Targets : InTok(NN[i], ln, ch)}
+      edge == {i \in Targets : AtTokEnd(NN[i], ln, ch)} IN
+  IF hit = {} THEN (edge # {} \/ (NoHover(pr) /\ NoDef(pr)))          \* token-end positions are don't-care
+  ELSE LET i == CHOOSE x \in hit : TRUE IN
+       IF NN[i][1] = "Variable" THEN
+          LET d == DeclOf(i) IN
+          IF d = 0 THEN NoHover(pr) /\ NoDef(pr)
+          ELSE /\ pr[3] = "var" /\ pr[4] = NN[i][6] /\ pr[5] = NN[d - 1][6]
+               /\ <<pr[6], pr[7], pr[8], pr[9]>> = <<NN[i][2], NN[i][3], NN[i][4], NN[i][5]>>
+               /\ <<pr[10], pr[11], pr[12], pr[13]>> = <<NN[d][2], NN[d][3], NN[d][4], NN[d][5]>>
+       ELSE IF FnKnown(i) THEN pr[3] = "fn" /\ pr[4] = NN[i][6] /\ <<pr[6], pr[7], pr[8], pr[9]>> = <<NN[i][2], NN[i][3], NN[i][4], NN[i][5]>> /\ NoDef(pr)
+            ELSE NoHover(pr) /\ NoDef(pr)
+C19_Navigation == T.e = "nav" =>
+  /\ Check("C19", "the language server panicked", T.panic = "")
+  /\ (T.panic # "" \/ (\A j \in 1..Len(T.probes) : ProbeOk(T.probes[j]))
+        \/ Report("C19", "hover / definition at a position does not identify the variable (type, declaration range) or built-in under the cursor, or answers where nothing is", CHOOSE j \in 1..Len(T.probes) : ~ProbeOk(T.probes[j])))
 Post == TLCGet(2) = 0
 ASSUME TLCSet(2, 0)
 =============================================================================
